@@ -78,3 +78,32 @@ def check(ctx, prog):
 def replay():
     import C02_dequeue_replay
     return C02_dequeue_replay.replay()
+
+
+def check_drain(ctx, prog):
+    """C07: `ActorCell::drain` is `ActorProperties::drain` - called once, verdict unchanged"""
+    fn = 'ActorCell::drain'
+    body = prog.find_fn(fn)
+    if body is None:
+        raise Inconclusive(fn + ' not found')
+    ctx.encoded(prog, body)
+    I = lc.new_interp(prog)
+
+    def inner(I, st, f, args, fr):
+        st.emit('INNER_DRAIN')
+        s2 = st.fork()
+        st.emit('INNER_RESULT', 'ok')
+        s2.emit('INNER_RESULT', 'refused')
+        return [Outcome(st, 'ret', models_std.ok(UNIT)), Outcome(s2, 'ret', models_std.err(Enum('MessagingErr', 'ChannelClosed', 1, ())))]
+    I.override.append((re.compile(r'(^|::)ActorProperties::drain$'), inner))
+    st = State()
+    props = st.alloc(Opaque('ActorProperties', ident='the-props'))
+    outs = I.run_body(st, body, [Ref(st.alloc(Agg('ActorCell', (BoxV(props, 'Arc'),))), ())])
+    ctx.absorb(I)
+    ctx.paths += len(outs)
+    for k, o in enumerate(outs):
+        calls = [e for e in o.st.trace if e[0] == 'INNER_DRAIN']
+        res = [e[1] for e in o.st.trace if e[0] == 'INNER_RESULT']
+        okk = o.kind == 'ret' and isinstance(o.val, Enum) and o.val.variant == 'Ok'
+        claims = {'exactly_one_drain_of_the_mailbox': o.kind == 'ret' and len(calls) == 1, 'the_verdict_is_returned_unchanged': o.kind == 'ret' and bool(res) and okk == (res[0] == 'ok')}
+        lp.record(ctx, 'wrappers.ActorCell__drain.path%d' % k, o.st, claims, 'C07.wrappers', on_cex=lambda m: replay())
